@@ -9,7 +9,7 @@ from .. import batcher_drv as D
 from .. import batcher_gen as G
 
 PROP = 'C04'
-READY = False
+READY = True
 PROPS_MODULE = 'C04'
 MODEL_TARGETS = ['theories/Case_C04.vo']
 HEADER = ('From Coq Require Import List NArith. Import ListNotations.\n'
@@ -150,11 +150,13 @@ LEVEL_TEXT = ('AsyncBackgroundBatcher is modelled as an executable macro-step st
     'a running batch answers all its items in that step; no_task_died.  Liveness is stated as these safety facts plus '
     "C10's dispatch_deadline; that the batch function itself ends is the environment's obligation.  Tied to /repo by "
     'running the real class under a virtual-time loop on enumerated and random event lists and comparing traces '
-    'inside Coq; the monitor ok_C04 judges the observed trace independently of the model (monitor_sound_partial: '
-    'acceptance implies no TaskDied, no double completion).')
+    'inside Coq; the monitor ok_C04 judges the observed trace independently of the model (monitor_basic_complete / '
+    'monitor_basic_sound: the state-free conjuncts — no TaskDied, completion clock, no double completion, non-empty '
+    'duplicate-free batches not in the future — accept every model trace for all event lists and imply these facts; '
+    'monitor_sound_partial for the full monitor).')
 LEVEL_NOTE = ('trusted: Coq kernel + vm_compute; asyncio primitives (Queue, wait_for, FIFO Semaphore, shield, Future '
     'done-callbacks, call_later, task wake-up order) are modelled in Batcher.v and validated only by the '
     'correspondence runs; harness/vloop.py, harness/batcher_drv.py, coq/theories/Case_Batcher.v (agree + monitors).  '
-    'Monitor soundness is proved only for the simple conjuncts (monitor_sound_partial); the other conjuncts are tied '
+    'The state-free conjuncts of the monitors (ok_basic) are proved complete and sound; full-monitor soundness is proved only for simple conjuncts (monitor_sound_partial); the other conjuncts are tied '
     'to the theorems through agree (model trace = observed trace) on every case')
 TECHNIQUE = 'Coq proof (inductive invariant over a macro-step model) + differential correspondence evaluated by vm_compute'
